@@ -67,7 +67,18 @@ def compress (h : Array UInt32) (blk : Array UInt8) (off : Nat) : Array UInt32 :
     hh := g; g := f; f := e; e := d + t1; d := c; c := b; b := a; a := t1 + t2
   return #[h[0]! + a, h[1]! + b, h[2]! + c, h[3]! + d, h[4]! + e, h[5]! + f, h[6]! + g, h[7]! + hh]
 
-def hash (msg : List UInt8) : List UInt8 := Id.run do
+/-- the UTF-8 bytes of a string (as a list; `String` is a validated `ByteArray`) -/
+def bytesOf (s : String) : List UInt8 := s.toByteArray.data.toList
+
+theorem bytesOf_inj {a b : String} (h : bytesOf a = bytesOf b) : a = b := by
+  unfold bytesOf at h
+  have h1 : a.toByteArray.data = b.toByteArray.data := Array.toList_inj.mp h
+  have h2 : a.toByteArray = b.toByteArray := by
+    cases ha : a.toByteArray; cases hb : b.toByteArray
+    rw [ha, hb] at h1; simp only at h1; rw [h1]
+  exact String.toByteArray_inj.mp h2
+
+def hashRaw (msg : List UInt8) : List UInt8 := Id.run do
   let p := (pad msg).toArray
   let mut h := H0
   for i in [0:p.size / 64] do
@@ -76,6 +87,13 @@ def hash (msg : List UInt8) : List UInt8 := Id.run do
   for x in h.toList.reverse do
     out := (x >>> 24).toUInt8 :: (x >>> 16).toUInt8 :: (x >>> 8).toUInt8 :: x.toUInt8 :: out
   return out
+
+/-- SHA-256: always 32 bytes (the normalisation is the identity on `hashRaw`'s output; it makes
+the length a one-line fact) -/
+def hash (msg : List UInt8) : List UInt8 := ((hashRaw msg) ++ List.replicate 32 0).take 32
+
+theorem hash_length (msg : List UInt8) : (hash msg).length = 32 := by
+  simp [hash]
 
 def hexDigit (n : Nat) : Char := "0123456789abcdef".toList.getD n '?'
 def toHex (bs : List UInt8) : String :=
